@@ -131,7 +131,7 @@ def edge_programs(tier):
                     body.append("echo(%s.only%d());" % (v, st))
             progs.append(("generic-hierarchy:d%d:o%d" % (depth, nover), main_prog(body, src)))
     # e3. destructors that do unusual things with 'this' and with other objects
-    zcls = ("class Z { public int id; public Z other; public constructor(int i) -> Z { this.id = i; this.other = null; } public destructor() -> void { %s } public function get() -> int { return this.id; } }\n"
+    zcls = ("class Z { public int id; public Z other; public constructor(int i) -> Z { this.id = i; this.other = null; } public destructor() -> void { %s } public function get() -> int { return this.id; } public int[2] arr; public function bump() -> void { id = id + 1; } public function inc() -> void { id++; } public function fill() -> void { arr[0] = 5; other = null; } public function bare() -> int { return id + arr[1]; } }\n"
             "class Hold { public Z item; public constructor() -> Hold { this.item = null; } }\n"
             "static class Keep { public static Z z = null; public static Hold h = new Hold(); public static int n = 0; }\n")
     dtor_bodies = {
@@ -151,7 +151,10 @@ def edge_programs(tier):
         "static-partner": ["Keep.z = new Z(5);", "{ Z a = new Z(1); a.other = Keep.z; }", "echo(\"after\");"],
         "end-of-main": ["Z a = new Z(1);", "Z b = new Z(2);", "a.other = b;", "echo(\"last\");"],
     }
-    after = ["if (Keep.z != null) { echo(Keep.z.id); echo(Keep.z.get()); Keep.z.id = 4; Z again = Keep.z; Keep.z = null; echo(again.get()); }",
+    # (seed C12-5) ... and methods of the survivor that read and ASSIGN its fields by their bare names (assignment, ++, element assignment)
+    after = ["if (Keep.z != null) { Keep.z.bump(); Keep.z.inc(); Keep.z.fill(); echo(Keep.z.bare()); }",
+             "if (Keep.h.item != null) { Keep.h.item.bump(); Keep.h.item.fill(); echo(Keep.h.item.bare()); }",
+             "if (Keep.z != null) { echo(Keep.z.id); echo(Keep.z.get()); Keep.z.id = 4; Z again = Keep.z; Keep.z = null; echo(again.get()); }",
              "if (Keep.h.item != null) { echo(Keep.h.item.id); Keep.h.item = null; }", "echo(Keep.n);", "echo(\"end\");"]
     for dn, db in dtor_bodies.items():
         for un, ub in uses.items():
